@@ -13,7 +13,7 @@ func init() {
 	register(&propDef{
 		ID: "C14",
 		Info: propInfo{
-			Technique: "finite-domain status propagation: the lifecycle methods and every public bind method are extracted as a sequential transition table and compared with the documented machine",
+			Technique:   "finite-domain status propagation: the lifecycle methods and every public bind method are extracted as a sequential transition table and compared with the documented machine",
 			Explanation: "(R14.1) for each of Pause, PauseAndWait, Resume, Stop, WaitAndStop, Restart, TunePool, start and every public Bind*/With* method, from each of the four states, every reachable (returned error, final status, ordered effects) equals the documented machine: errors, state changes, 'spawn a run' only from Initiated, 'fresh run' in Restart, no effect where the machine says none; (R14.2) whenever the run's channels are closed the path ends Stopped or re-makes both channels before going on, and constructors create both channels, so Running/Paused imply live channels; (R14.3) the context listener stops the worker only after comparing its own context with the worker's current one under the lock (or every cancel happens in state Stopped), so Restart's cancel of the previous run cannot stop the new one; (R14.4) Status() maps the four constants to the four documented strings and IsRunning/IsPaused/IsStopped are true exactly on their state.",
 			NotDecided:  []string{"concurrent control calls (the machine is sequential)", "the asynchronous listener beyond R14.3", "that a Running worker actually processes jobs (C03)"},
 			Assumptions: []string{"one control call at a time"},
@@ -23,7 +23,7 @@ func init() {
 	register(&propDef{
 		ID: "C15",
 		Info: propInfo{
-			Technique: "path counting over the bind methods + table extraction of the strategy switch and comparators + lockset",
+			Technique:   "path counting over the bind methods + table extraction of the strategy switch and comparators + lockset",
 			Explanation: "(R15.1) along every path of every public Bind*/With* method the queue is registered with the worker's manager exactly once, and what is registered is the queue being bound; (R15.2) next() maps RoundRobin/MaxLen/MinLen to the matching selector and anything else to an error; (R15.3) the round-robin cursor is written only under the manager's write lock, only as (cursor+1) mod len(items) or a reset to 0, the item returned is the one at the pre-increment cursor and it is returned only when non-empty, and the scan ends after one full cycle; (R15.4) the MaxLen comparator's sign equals the sign of Len(a)-Len(b) on all order types, the MinLen update condition is l>0 and (none yet or l<min), and both report ErrAllItemsEmpty when nothing is non-empty; (R15.5) the item list only grows by append in Register and nothing in the library unregisters.",
 			NotDecided:  []string{"fairness over time under concurrent submissions", "stability of a foreign adapter's Len() between selection and dequeue"},
 			Assumptions: []string{"slices.MaxFunc returns a maximal element for a consistent comparator"},
